@@ -6,8 +6,7 @@ NO_CONV = ["--bounds-check", "--pointer-check", "--pointer-overflow-check", "--s
 PROPS = {}
 SOURCE_COMMITS = []   # hook commits in /repo (none: contracts live in /verif); fix: commits are listed in known_findings.txt
 # properties not (yet) claimed, with the reason that goes to MANIFEST.not_applicable
-UNCLAIMED = {p: "no check is registered for this property yet (contracts planned in DESIGN.md section 4 are not built); nothing is claimed"
-             for p in ( "C19")}
+UNCLAIMED = {}
 
 
 def J(**kw):
